@@ -32,9 +32,7 @@ import (
 
 const (
 	nWorkers        = 16
-	heavySlots      = 4  // managers that serve the memory-hungry cases first
-	overflowSlots   = 12 // extra workers (2 GiB limit) for the cases expected never to return: each occupies its worker for 80 s
-	overflowVMemKiB = 2097152
+	heavySlots      = 4                // managers that serve the memory-hungry cases first
 	quietBatch      = 30 * time.Second // no line from a worker for this long: suspected hang
 	quietSolo       = 75 * time.Second // solo re-run: in-worker call limit is 60 s, heartbeats every 5 s
 	soloDeathTries  = 3
@@ -152,6 +150,13 @@ func (x *runner) handle(idx int, c Case, res *Result) {
 }
 
 func sigKey(p *Prog, call string) string {
+	if p.Group == "cyclic" {
+		// one signature per crashing operation / follow-up call, whatever the shape of the cyclic container
+		if call == "" || call == "run1" {
+			return "op=" + p.SigOp
+		}
+		return "call=" + call
+	}
 	if p.SigOp != "" {
 		if call == "" || call == "run1" {
 			return "op=" + p.SigOp + "/arg=" + p.SigArg
@@ -249,7 +254,9 @@ func (x *runner) investigate(idx int, c Case, first attempt, vmemKiB int) {
 	isRun := func(call string) bool { return call == "" || call == "run1" || call == "run2" || call == "clone-run" }
 	runaway := func(call string) (sig, what string) {
 		op := p.Key
-		if p.SigOp != "" {
+		if p.Group == "cyclic" {
+			op = "op=" + p.SigOp
+		} else if p.SigOp != "" {
 			op = "op=" + p.SigOp + "/arg=" + p.SigArg
 		}
 		if call != "" && call != "run1" {
@@ -276,8 +283,14 @@ func (x *runner) investigate(idx int, c Case, first attempt, vmemKiB int) {
 		fc.Stderr = stderrEvidence(lastDeath.stderr)
 		what := fmt.Sprintf("the host process dies (%s, %s) while Compiled.%s is executing; the worker died in %d of %d attempts (%s)",
 			lastDeath.class, lastDeath.status, callName(call), deaths, len(all), strings.Join(trail, "; "))
+		if p.Group == "cyclic" {
+			what += "; container shape of this case: " + p.SigArg + ", operation: " + p.SigOp
+		}
 		x.r.Violation(sig, what, fc)
 		x.r.Outcome(c.Family + "/host-crash/" + lastDeath.class)
+		if p.Group == "cyclic" {
+			x.r.Count("cyclic-crash/"+sigKey(p, call)+"/"+p.SigArg, 1) // the shapes behind each coarse signature
+		}
 		if atomic.AddInt64(&x.crashes, 1) > maxCrashes {
 			x.halt(fmt.Sprintf("more than %d confirmed host crashes: enumeration stopped", maxCrashes))
 		}
@@ -310,12 +323,7 @@ func (x *runner) countHang(sig string) {
 	}
 }
 
-func vmemFor(p *Prog) int {
-	if p.Group == "overflow" {
-		return overflowVMemKiB
-	}
-	return workerVMemKiB
-}
+func vmemFor(p *Prog) int { return workerVMemKiB }
 
 func callName(call string) string {
 	switch call {
@@ -357,7 +365,6 @@ type queues struct {
 	mu    sync.Mutex
 	light []chunk
 	heavy []chunk
-	over  []chunk
 }
 
 func (q *queues) next(kind string) (chunk, bool) {
@@ -372,8 +379,6 @@ func (q *queues) next(kind string) (chunk, bool) {
 		return c, true
 	}
 	switch kind {
-	case "overflow":
-		return pop(&q.over)
 	case "heavy":
 		if c, ok := pop(&q.heavy); ok {
 			return c, true
@@ -433,10 +438,6 @@ func makeQueues(s *Space) *queues {
 	i := 0
 	for i < n {
 		switch s.Kind(i) {
-		case "overflow":
-			q.over = append(q.over, chunk{i, i + 1, true, false})
-			i++
-			continue
 		case "heavy":
 			q.heavy = append(q.heavy, chunk{i, i + 1, true, false})
 			i++
@@ -555,8 +556,8 @@ func main() {
 		r.NotExhaustive("debugging filter C05_ATOMS/C05_NOVALS in effect")
 	}
 	q := makeQueues(x.space)
-	fmt.Printf("[%6.1fs] %d cases (%d atom/pair cases over %d atoms, %d value-level cases); chunks: %d light, %d heavy, %d overflow; %d workers (+%d for overflow cases)\n",
-		r.Elapsed().Seconds(), x.space.Len(), len(x.space.atoms), len(allAtoms()), len(x.space.vals), len(q.light), len(q.heavy), len(q.over), nWorkers, overflowSlots)
+	fmt.Printf("[%6.1fs] %d cases (%d atom/pair cases over %d atoms, %d value-level cases); chunks: %d light, %d heavy; %d workers\n",
+		r.Elapsed().Seconds(), x.space.Len(), len(x.space.atoms), len(allAtoms()), len(x.space.vals), len(q.light), len(q.heavy), nWorkers)
 	var wg sync.WaitGroup
 	for i := 0; i < nWorkers; i++ {
 		wg.Add(1)
@@ -565,10 +566,6 @@ func main() {
 			kind = "heavy"
 		}
 		go x.work(q, kind, workerVMemKiB, &wg)
-	}
-	for i := 0; i < overflowSlots && i < len(q.over); i++ {
-		wg.Add(1)
-		go x.work(q, "overflow", overflowVMemKiB, &wg)
 	}
 	done := make(chan struct{})
 	go func() { wg.Wait(); close(done) }()
@@ -606,6 +603,15 @@ loop:
 	r.Set("skipped_classes", x.skipped)
 	r.Set("compile_panics_observed", x.compilePan)
 	r.Set("atoms", len(allAtoms()))
+	if x.thorough {
+		r.Set("value_alphabets", "all of val.All() for every value-level family")
+		r.Set("cyclic_shapes", "all 10 shapes: main and function placement, 4x8 sub-matrix in all 7 placements")
+	} else {
+		r.Set("quick_pair_alphabet", quickPairAlphabet)
+		r.Set("quick_builtin_alphabet", quickBuiltinAlphabet)
+		r.Set("quick_cyclic_shapes", quickShapes)
+		r.Set("value_alphabets", "quick: unary/ternary/selector/binary operators/index/index-assignment/slice over quick_pair_alphabet (30 of val.All(), every kind and the boundary values kept); builtins x arity 0..2 over quick_builtin_alphabet (20 values); arity 3..4 sub-alphabets as in thorough")
+	}
 	r.Set("atom_and_pair_cases", len(x.space.atoms))
 	r.Set("value_level_cases", len(x.space.vals))
 	r.Assume("excluded by the property: unbounded single allocations (range() asking for more than 2^20 elements, bytes(N) with N > 2^20 below the limit, bytes(2^31-1)); counted under skipped_classes")
@@ -622,8 +628,8 @@ loop:
 			"container mutation during iteration, 10 cyclic container shapes x 29 operations, runaway recursion, known non-terminating loops under a 2 s deadline, spread/call misuse, " +
 			"every builtin x 0..5 arguments, failing/panicking/nil-returning host functions, host objects returning nil in every operator position, indexing/slicing/assignment of 10 receiver kinds x 13 index values, " +
 			"splice/format/selector misuse, operand-stack/frame/locals/globals limits by generated text, acyclic nesting 300..10^5, string/bytes limit) x 7 placements " +
-			"(main, function, closure, source module, loop, builtin argument, for-in header; crash-prone groups: quick = 7 of the 10 cyclic shapes in main placement, thorough = all shapes in main and function placement plus a 4x8 sub-matrix in all placements) " +
-			"[thorough: + pairs first-atom-in-function ; second-atom-in-main]; value family: every binary operator x every ordered pair of V, every unary/ternary/selector/index/index-assignment/slice shape over V, " +
+			"(main, function, closure, source module, loop, builtin argument, for-in header; crash-prone groups: quick = 3 of the 10 cyclic shapes x all operations in main placement, thorough = all shapes in main and function placement plus a 4x8 sub-matrix in all placements; non-terminating atoms: 3 placements in quick) " +
+			"[thorough: + pairs first-atom-in-function ; second-atom-in-main]; value family (thorough: V = all of val.All(); quick: the 30-value and 20-value sub-alphabets named in the evidence): every binary operator x every ordered pair of V, every unary/ternary/selector/index/index-assignment/slice shape over V, " +
 			"every builtin x every argument tuple of arity 0..2 over V (arity 3..4 over sub-alphabets for splice/range/append/format) as host inputs; " +
 			"state = one (program, inputs) case; transition = one API call executed in a worker (Compile, RunContext, Get, GetAll, IsDefined, Set, RunContext, Clone, RunContext); " +
 			"validated = cases whose whole call sequence completed and passed through every oracle; non-trivial = distinct cases whose first RunContext returned a non-nil error",
